@@ -220,6 +220,10 @@ func (c *merkleCircuit) Define(api frontend.API) error {
 type fsCircuit struct {
 	B   [3][]frontend.Variable
 	Exp [3]frontend.Variable `gnark:",public"`
+	// the hasher handed to the transcript is the caller's: it may be used before the first and between two challenges
+	Msg     frontend.Variable
+	ExpMsg  frontend.Variable `gnark:",public"`
+	between int // 0: untouched; 1: written and summed between challenges; 2: written (not summed) before the first and between
 }
 
 func (c *fsCircuit) Define(api frontend.API) error {
@@ -234,12 +238,24 @@ func (c *fsCircuit) Define(api frontend.API) error {
 			return err
 		}
 	}
+	if c.between == 2 {
+		h.Write(c.Msg)
+	}
 	for i, id := range ids {
 		v, err := ts.ComputeChallenge(id)
 		if err != nil {
 			return err
 		}
 		api.AssertIsEqual(v, c.Exp[i])
+		switch c.between {
+		case 1:
+			h.Write(c.Msg)
+			api.AssertIsEqual(h.Sum(), c.ExpMsg)
+			h.Reset()
+			h.Write(c.Msg) // left unsummed: the transcript must start from a clean state
+		case 2:
+			h.Write(c.Msg, c.Msg)
+		}
 	}
 	return nil
 }
@@ -686,10 +702,17 @@ func runC15(args []string) int {
 				asg.B[i][j] = bs[i][j]
 			}
 		}
-		err := test.IsSolved(tmpl, asg, q)
-		rep.Eval("fiat-shamir", true)
-		if err != nil {
-			rep.Fail("c15:fiat-shamir-mismatch", "the in-circuit transcript challenges differ from gnark-crypto's: "+shortErr(err), nil)
+		msg := rng.FieldElem(q)
+		hm := mimc254.NewMiMC()
+		hm.Write(feBytes(q, msg))
+		asg.Msg, asg.ExpMsg = msg, new(big.Int).SetBytes(hm.Sum(nil))
+		for between := 0; between < 3; between++ {
+			tmpl.between, asg.between = between, between
+			err := test.IsSolved(tmpl, asg, q)
+			rep.Eval(fmt.Sprintf("fiat-shamir|%d", between), true)
+			if err != nil {
+				rep.Fail("c15:fiat-shamir-mismatch", fmt.Sprintf("the in-circuit transcript challenges differ from gnark-crypto's (caller's use of the shared hasher: mode %d): %s", between, shortErr(err)), nil)
+			}
 		}
 	}
 	// sponge cases for the Gallina Keccak model: the same messages, reference digests from x/crypto/sha3
